@@ -73,6 +73,7 @@ var (
 	fSkewTx        = simrt.RegisterCounter("fault_txdr_txch_skew")
 	fNearMax       = simrt.RegisterCounter("fault_counter_near_rollover_start")
 	cManyDev       = simrt.RegisterCounter("op_network_with_dozens_of_sessions")
+	fBlankKey      = simrt.RegisterCounter("fault_one_side_holds_a_blank_or_copied_key")
 	cOperator      = simrt.RegisterCounter("fault_unrelated_registration_during_traffic")
 	cMICFDisagrees = simrt.RegisterCounter("probe_cmacf_helper_disagrees_not_judged")
 	cOwnDirection  = simrt.RegisterCounter("probe_reflected_frame_accepted_with_its_own_direction")
@@ -502,6 +503,17 @@ func sessionFault(w *world, id int, r *sim.Rand) {
 		// exactly ONE key differs (the NS has not learned it)
 		rr := sim.NewRand(r.U64())
 		switch {
+		case d.sess.V11 && r.Intn(5) == 0:
+			// the other side holds a "blank" or copied value for this key
+			simrt.Count(fBlankKey)
+			switch r.Intn(3) {
+			case 0:
+				n.sess.SNwkSInt = spec.Key{}
+			case 1:
+				n.sess.SNwkSInt = n.sess.FNwkSInt
+			default:
+				d.sess.SNwkSInt = d.sess.FNwkSInt
+			}
 		case d.sess.V11 && r.Intn(3) == 0:
 			rr.Fill(d.sess.SNwkSInt[:])
 		case d.sess.V11 && r.Intn(2) == 0:
